@@ -26,6 +26,7 @@ import (
 	"istio.io/istio/pkg/config/host"
 	"istio.io/istio/pkg/config/labels"
 	"istio.io/istio/pkg/config/visibility"
+	"istio.io/istio/pkg/util/protomarshal"
 	"istio.io/istio/pkg/util/sets"
 )
 
@@ -225,17 +226,22 @@ func mergeBackendPolicyPortLevelSettings(user, backend []*networking.TrafficPoli
 	if len(backend) == 0 {
 		return user
 	}
-	byPort := make(map[uint32]*networking.TrafficPolicy_PortTrafficPolicy, len(user))
+	// The user settings may be the ones held by the config store (the incoming rule is not copied), so they are
+	// never written to: the result is a new list, and a port that gets gaps filled is a copy.
+	merged := make([]*networking.TrafficPolicy_PortTrafficPolicy, 0, len(user)+len(backend))
+	byPort := make(map[uint32]int, len(user))
 	for _, p := range user {
-		byPort[p.GetPort().GetNumber()] = p
+		byPort[p.GetPort().GetNumber()] = len(merged)
+		merged = append(merged, p)
 	}
-	merged := user
 	for _, bp := range backend {
-		up, ok := byPort[bp.GetPort().GetNumber()]
+		i, ok := byPort[bp.GetPort().GetNumber()]
 		if !ok {
 			merged = append(merged, bp)
 			continue
 		}
+		up := protomarshal.ShallowClone(merged[i])
+		merged[i] = up
 		if up.LoadBalancer == nil {
 			up.LoadBalancer = bp.LoadBalancer
 		}
